@@ -92,10 +92,10 @@ func (s *c01Shape) build(ic IdxCfg) (geometry.Geometry, geojson.Object) {
 		for _, h := range s.holes {
 			hs = append(hs, gpts(h))
 		}
-		p := geometry.NewPoly(gpts(s.ext), hs, ic.Opts())
+		p := newPolyOwn(gpts(s.ext), hs, ic.Opts())
 		return p, geojson.NewPolygon(p)
 	case "line":
-		l := geometry.NewLine(gpts(s.pts), ic.Opts())
+		l := newLineOwn(gpts(s.pts), ic.Opts())
 		return l, geojson.NewLineString(l)
 	case "rect":
 		r := mkRect(s.pts[0], s.pts[1])
